@@ -70,6 +70,12 @@ impl SaslTransport {
     pub fn send(&mut self, f: sasl::Frame) -> (r: Result<(), TransportError>)
         ensures r is Ok ==> final(self).sent@ == old(self).sent@.push(f), r is Err ==> final(self).sent@ == old(self).sent@,
     { unimplemented!() }
+    /// `send` with the frame also noted in the caller's wire log
+    #[verifier::external_body]
+    pub fn send_l(&mut self, f: sasl::Frame, wire: &mut WireLog) -> (r: Result<(), TransportError>)
+        ensures r is Ok ==> final(self).sent@ == old(self).sent@.push(f) && final(wire).frames@ == old(wire).frames@.push(f),
+            r is Err ==> final(self).sent@ == old(self).sent@ && final(wire).frames@ == old(wire).frames@,
+    { unimplemented!() }
     #[verifier::external_body]
     pub fn next(&mut self) -> (r: Option<Result<sasl::Frame, TransportError>>)
         ensures final(self).sent == old(self).sent,
@@ -78,15 +84,19 @@ impl SaslTransport {
     pub fn into_framed_codec(self) -> (r: (FramedW, FramedR)) ensures r.0.history@ == self.sent@, r.1.history@ == self.sent@, r.1.unread == r.1.received, r.1.client_sasl_ok == self.client_sasl_ok { unimplemented!() }
 }
 pub struct ListenerConnectionHandle { pub sasl_history: Ghost<Seq<sasl::Frame>> }
+/// `f` is an answer the configured SASL mechanism gave to the peer's init / response (SaslAcceptor::on_init / on_response)
+pub uninterp spec fn mech_says(f: SaslServerFrame) -> bool;
+/// what this negotiation has put on the wire, kept OUTSIDE the transport (the transport is a local of the function and is gone when it fails)
+pub struct WireLog { pub frames: Ghost<Seq<sasl::Frame>> }
 pub struct SaslS { pub g: Ghost<int> }
 impl Clone for SaslS { #[verifier::external_body] fn clone(&self) -> (r: Self) { unimplemented!() } }
 impl SaslS {
     #[verifier::external_body]
     pub fn sasl_mechanisms(&self) -> (r: SaslMechanisms) { unimplemented!() }
     #[verifier::external_body]
-    pub fn on_init(&mut self, init: SaslInit) -> (r: SaslServerFrame) { unimplemented!() }
+    pub fn on_init(&mut self, init: SaslInit) -> (r: SaslServerFrame) ensures mech_says(r) { unimplemented!() }
     #[verifier::external_body]
-    pub fn on_response(&mut self, resp: SaslResponse) -> (r: SaslServerFrame) { unimplemented!() }
+    pub fn on_response(&mut self, resp: SaslResponse) -> (r: SaslServerFrame) ensures mech_says(r) { unimplemented!() }
 }
 pub struct ConnectionAcceptor { pub sasl_acceptor: SaslS }
 impl ConnectionAcceptor {
@@ -107,8 +117,12 @@ impl ConnectionAcceptor {
 //@@ subst `transport.next().ok_or_else(|| { OpenError::Io(io::Error::new( io::ErrorKind::UnexpectedEof, "Expecting SASL frames", )) })??` => `(match (match transport.next() { Some(x) => x, None => return Err(eof_error()) }) { Ok(f) => f, Err(e) => return Err(OpenError::Transport(e)) })` rule=R24
 //@@ subst `|_v0|` => `|_v0: LengthDelimited|` rule=optional-R5
 //@@ subst `|_v1|` => `|_v1: LengthDelimited|` rule=optional-R5
+//@@ addparam wire: &mut WireLog
+//@@ subst `transport.send(__E1)` => `transport.send_l(__E1, wire)` rule=R33
 //@@ spec
     ensures
+        forall|i: int| old(wire).frames@.len() <= i < final(wire).frames@.len() && (#[trigger] final(wire).frames@[i]) is Outcome && final(wire).frames@[i]->Outcome_0.code is Ok
+            ==> mech_says(SaslServerFrame::Outcome(final(wire).frames@[i]->Outcome_0)),       // [C19.listener.failure-on-both-sides] whether the negotiation succeeds or fails, an outcome with code OK reaches the peer only if the configured mechanism produced it: a malformed or out-of-order SASL frame is answered with a failure outcome (the peer fails too), never with OK
         r is Ok ==> ({
             let h = r->Ok_0.sasl_history@;
             &&& h.len() >= 2
@@ -118,10 +132,14 @@ impl ConnectionAcceptor {
         }),
 //@@ loop 0
         invariant_except_break
+            forall|i: int| old(wire).frames@.len() <= i < wire.frames@.len() && (#[trigger] wire.frames@[i]) is Outcome && wire.frames@[i]->Outcome_0.code is Ok ==> mech_says(SaslServerFrame::Outcome(wire.frames@[i]->Outcome_0)),
+            old(wire).frames@.len() <= wire.frames@.len(),
             transport.sent@.len() >= 1,
             transport.sent@[0] is Mechanisms,
             forall|i: int| 0 <= i < transport.sent@.len() ==> !((#[trigger] transport.sent@[i]) is Outcome),
         ensures
+            forall|i: int| old(wire).frames@.len() <= i < wire.frames@.len() && (#[trigger] wire.frames@[i]) is Outcome && wire.frames@[i]->Outcome_0.code is Ok ==> mech_says(SaslServerFrame::Outcome(wire.frames@[i]->Outcome_0)),
+            old(wire).frames@.len() <= wire.frames@.len(),
             transport.sent@.len() >= 2,
             transport.sent@[0] is Mechanisms,
             transport.sent@.last() is Outcome && transport.sent@.last()->Outcome_0.code is Ok,
